@@ -231,6 +231,9 @@ class ArffLineReader(Filter[str, Sequence[str]]):
                 self._set_filter(self._dense_advanced)
                 return self.filter(line)
 
+        #the line may have just settled the quote character above
+        quotechar = self._quotechar
+
         if "'" in line:
             if quotechar == "'":
                 pass
